@@ -9,8 +9,8 @@ from pyvc.run import task
 ROOT = os.path.dirname(os.path.dirname(os.path.abspath(__file__)))
 
 
-def _run_lean():
-    path = os.path.join(ROOT, 'lean', 'Induction.lean')
+def _run_lean(fname='Induction.lean'):
+    path = os.path.join(ROOT, 'lean', fname)
     src = open(path).read()
     body = re.sub(r'/-.*?-/', '', src, flags=re.S)
     body = re.sub(r'--.*', '', body)
@@ -26,16 +26,16 @@ def _run_lean():
     return ok, out, escapes, time.time() - t0
 
 
-def _obs(names):
-    ok, out, escapes, dt = _run_lean()
+def _obs(names, fname='Induction.lean'):
+    ok, out, escapes, dt = _run_lean(fname)
     obs = []
     for n in names:
-        thm = re.search(r'theorem\s+%s\b' % n, open(os.path.join(ROOT, 'lean', 'Induction.lean')).read()) is not None
+        thm = re.search(r'theorem\s+%s\b' % n, open(os.path.join(ROOT, 'lean', fname)).read()) is not None
         if ok is None:
             verdict = 'undecided'
         else:
             verdict = 'proved' if (ok and thm and not escapes) else 'refuted'
-        obs.append(dict(name='lemma:lean/Induction.lean:%s' % n, kind='lemma', verdict=verdict, backend='lean-4.33.0', time=round(dt, 2),
+        obs.append(dict(name='lemma:lean/%s:%s' % (fname, n), kind='lemma', verdict=verdict, backend='lean-4.33.0', time=round(dt, 2),
                         bounded=False, detail=None if verdict == 'proved' else ('escapes: %r; lean output: %s' % (escapes, out))))
     return obs
 
@@ -54,3 +54,12 @@ def fold(tier, seed):
                 assumptions=['the instantiation (impl = one iteration of _decode_line_program, spec = one step of the 6.2.5 machine, '
                              'R = equality of registers and emitted rows) is an argument of DESIGN.md, not a Lean term'],
                 functions=[dict(function='lean/Induction.lean (step refinement => program refinement)', kind='lemma')], exhaustive=True)
+
+
+@task('lemma-bitops', ['C03'], kind='ground')
+def bitops_lemma(tier, seed):
+    return dict(obligations=_obs(['mask_test_two_bits'], 'Bitops.lean'),
+                assumptions=['rule mask-test-two-bits of pyvc/verify.py instantiates lean/Bitops.lean:mask_test_two_bits at the terms '
+                             'bitand(x, bitor(pow2(a), pow2(b))) with bitand / bitor / pow2 read as Python & and | on non-negative ints and '
+                             '2**k: that reading is the meaning of the three symbols, not a Lean term'],
+                functions=[dict(function='lean/Bitops.lean (mask test of two bits, all naturals)', kind='lemma')], exhaustive=True)
